@@ -43,6 +43,8 @@ def propose(g, model, name):
             "short": r.choice([0, 0, 1, 3])}
     if name == "d_roundtrip":
         base["overwrite"] = r.random() < 0.3
+        # the process has a past: an earlier save of ANOTHER object failed part-way (a metadata value no format can take)
+        base["failed_save_before"] = r.choice([None, None, None, "json", "json", "hgx"])
     if name == "d_faults":
         base["stride1"] = 600
     return base
@@ -171,6 +173,17 @@ def make_handlers(ctx):
             fs.put(name, b"[\n" + b'{"junk":"' + b"x" * 9000 + b'"}\n]')
             ctx.stats["overwrite_longer"] += 1
         fs.set_plan(FaultPlan(None, bufsize=op["bufsize"], short_write=op["short"], short_read=op["short"]))
+        if op.get("failed_save_before"):
+            hx = sut()
+            ghost = hx.Hypergraph(weighted=True)
+            ghost.add_edge(("ghost1", "ghost2"), weight=5, metadata={"fine": 1})
+            ghost.add_edge(("ghost2", "ghost3"), weight=2, metadata={"bad": {1, 2}, "worse": (lambda: 0)})
+            ghost.add_node("ghost4", metadata={"bad": object()})
+            try:
+                save(ghost, fs.path(f"ghost{ctx.n}.{op['failed_save_before']}"), op["failed_save_before"])
+            except Exception:  # noqa: expected - the content is outside what the formats can store
+                ctx.stats["failed_saves_of_another_object_before"] = ctx.stats.get("failed_saves_of_another_object_before", 0) + 1
+            fs.remove(f"ghost{ctx.n}.{op['failed_save_before']}")
         try:
             save(obj, path, fmt)
         except Exception as e:  # noqa
